@@ -714,6 +714,7 @@ func runNoAlias(c *core.Ctx) []core.Obligation {
 		})
 	}
 	obs = append(obs, core.Ob("R-NOALIAS", "scan", "-", "", core.Discharged, fmt.Sprintf("%d map insertions in query code examined; none stores an index cell's own edge slice", examined)))
+	obs = append(obs, appendToSharedField(c)...)
 	return obs
 }
 
